@@ -492,62 +492,62 @@ fn while_unwinding<R>(f: impl FnOnce() -> R) -> Result<R, String> {
 
 // ---- further evaluation contexts -------------------------------------------------------------
 
-/// Runs `leaf` inside `depth` active continuations/alternatives of the real combinators (cycled:
+/// Runs `leaf` inside `depth` active continuations/alternatives of one real combinator (`kind`:
 /// and_then, or_parse, and_also, map, and_do, or_always_parse, ResultExt::and_also); every level
 /// checks its own combinator's result and that its closure ran exactly once.
-fn nest<R>(depth: usize, leaf: &mut dyn FnMut() -> R, bad: &mut Option<String>) -> Option<R> {
+fn nest<R>(depth: usize, kind: usize, leaf: &mut dyn FnMut() -> R, bad: &mut Option<String>) -> Option<R> {
     if depth == 0 {
         return Some(leaf());
     }
     let d = depth as i64;
     let mut out = None;
     let mut calls = 0u32;
-    let ok = match depth % 7 {
+    let ok = match kind % 7 {
         0 => {
             Parsed::<i64, i64>::Res(Ok(d)).and_then(|v| {
                 calls += 1;
-                out = nest(depth - 1, leaf, bad);
+                out = nest(depth - 1, kind, leaf, bad);
                 Ok(v)
             }) == Parsed::Res(Ok(d))
         }
         1 => {
             Parsed::<i64, i64>::Fallthrough.or_parse(|| {
                 calls += 1;
-                out = nest(depth - 1, leaf, bad);
+                out = nest(depth - 1, kind, leaf, bad);
                 Parsed::Res(Ok(d))
             }) == Parsed::Res(Ok(d))
         }
         2 => {
             Parsed::<i64, i64>::Res(Ok(d)).and_also(|_| {
                 calls += 1;
-                out = nest(depth - 1, leaf, bad);
+                out = nest(depth - 1, kind, leaf, bad);
                 Ok(())
             }) == Parsed::Res(Ok(d))
         }
         3 => {
             Parsed::<i64, i64>::Res(Ok(d)).map(|v| {
                 calls += 1;
-                out = nest(depth - 1, leaf, bad);
+                out = nest(depth - 1, kind, leaf, bad);
                 v + 1
             }) == Parsed::Res(Ok(d + 1))
         }
         4 => {
             Parsed::<i64, i64>::Res(Ok(d)).and_do(|_| {
                 calls += 1;
-                out = nest(depth - 1, leaf, bad);
+                out = nest(depth - 1, kind, leaf, bad);
             }) == Parsed::Res(Ok(d))
         }
         5 => {
             Parsed::<i64, i64>::Fallthrough.or_always_parse(|| {
                 calls += 1;
-                out = nest(depth - 1, leaf, bad);
+                out = nest(depth - 1, kind, leaf, bad);
                 Ok(d)
             }) == Ok(d)
         }
         _ => {
             ResultExt::and_also(Ok::<i64, i64>(d), |_| {
                 calls += 1;
-                out = nest(depth - 1, leaf, bad);
+                out = nest(depth - 1, kind, leaf, bad);
                 Ok(())
             }) == Ok(d)
         }
@@ -555,7 +555,7 @@ fn nest<R>(depth: usize, leaf: &mut dyn FnMut() -> R, bad: &mut Option<String>) 
     if (!ok || calls != 1) && bad.is_none() {
         *bad = Some(format!(
             "nesting level {depth} ({}): result as documented: {ok}, closure invoked {calls} time(s)",
-            ["and_then", "or_parse", "and_also", "map", "and_do", "or_always_parse", "ResultExt::and_also"][depth % 7]
+            ["and_then", "or_parse", "and_also", "map", "and_do", "or_always_parse", "ResultExt::and_also"][kind % 7]
         ));
     }
     out
@@ -591,10 +591,10 @@ fn at_stack_positions(k: &Case, zst: bool) -> Result<Vec<Observed>, String> {
         .map_err(|p| format!("panicked: {}", crate::engine::panic_message(&p)))
 }
 
-/// Runs `f` while 300 other threads are parked inside a continuation or alternative of one of
-/// the combinators (cycled over all closure-taking ones). Returns `f`'s result and the first
+/// Runs `f` while 300 other threads are parked inside a continuation or alternative of the
+/// combinators: all in combinator `kind`, or cycled over all closure-taking ones. Returns `f`'s result and the first
 /// complaint of a parked thread about its own combinator.
-pub fn with_parked_threads<R>(f: impl FnOnce() -> R) -> (R, Option<String>) {
+pub fn with_parked_threads<R>(kind: Option<usize>, f: impl FnOnce() -> R) -> (R, Option<String>) {
     use std::sync::{Arc, Barrier};
     const N: usize = 300;
     let entered = Arc::new(Barrier::new(N + 1));
@@ -611,7 +611,8 @@ pub fn with_parked_threads<R>(f: impl FnOnce() -> R) -> (R, Option<String>) {
                 release.wait();
             };
             let d = t as i64;
-            let ok = match t % 9 {
+            let which = kind.unwrap_or(t) % 9;
+            let ok = match which {
                 0 => Parsed::<i64, i64>::Res(Ok(d)).and_then(|v| { park(); Ok(v) }) == Parsed::Res(Ok(d)),
                 1 => Parsed::<i64, i64>::Fallthrough.or_parse(|| { park(); Parsed::Res(Ok(d)) }) == Parsed::Res(Ok(d)),
                 2 => Parsed::<i64, i64>::Res(Ok(d)).and_also(|_| { park(); Ok(()) }) == Parsed::Res(Ok(d)),
@@ -628,7 +629,7 @@ pub fn with_parked_threads<R>(f: impl FnOnce() -> R) -> (R, Option<String>) {
                 release.wait();
             }
             if !ok || calls != 1 {
-                Some(format!("parked thread {t} (combinator {}): result as documented: {ok}, closure invoked {calls} time(s)", t % 9))
+                Some(format!("parked thread {t} (combinator {which}): result as documented: {ok}, closure invoked {calls} time(s)"))
             } else {
                 None
             }
@@ -658,7 +659,27 @@ pub fn with_parked_threads<R>(f: impl FnOnce() -> R) -> (R, Option<String>) {
 }
 
 pub fn check_concurrent(k: &Case, obs: &mut Obs) -> CheckResult {
-    let (r, complaint) = with_parked_threads(|| check(k, obs));
+    // all parked threads inside the combinator under test (where it has a closure), then mixed
+    let own = match COMBINATORS[k.comb.min(COMBINATORS.len() - 1)] {
+        "and_then" => Some(0),
+        "or_parse" => Some(1),
+        "and_also" => Some(2),
+        "map" => Some(3),
+        "and_do" => Some(4),
+        "or_always_parse" => Some(5),
+        "or_give_up" => Some(6),
+        "map_err" => Some(7),
+        "result_and_do" => Some(8),
+        _ => None,
+    };
+    if own.is_some() {
+        let (r, complaint) = with_parked_threads(own, || check(k, &mut Obs::default()));
+        r?;
+        if let Some(c) = complaint {
+            fail!("C15:concurrent:parked-thread", "{c}");
+        }
+    }
+    let (r, complaint) = with_parked_threads(None, || check(k, obs));
     r?;
     if let Some(c) = complaint {
         fail!("C15:concurrent:parked-thread", "{c}");
@@ -715,7 +736,18 @@ pub fn check(k: &Case, obs: &mut Obs) -> CheckResult {
         let mut leaf = || if zst { actual_zst(k) } else { actual(k) };
         if nested {
             let mut bad = None;
-            let r = nest(NEST_DEPTH, &mut leaf, &mut bad);
+            // the nesting combinator is the one under test where it has a continuation
+            let kind = match name {
+                "and_then" => 0,
+                "or_parse" => 1,
+                "and_also" => 2,
+                "map" => 3,
+                "and_do" => 4,
+                "or_always_parse" => 5,
+                "result_and_also" => 6,
+                _ => k.comb,
+            };
+            let r = nest(NEST_DEPTH, kind, &mut leaf, &mut bad);
             if bad.is_some() {
                 *nest_complaint.borrow_mut() = bad;
             }
@@ -808,25 +840,28 @@ fn run(ctx: &Ctx) {
             }
         }
         // the same enumeration (plain and zero-sized contexts) while 300 threads sit inside
-        // continuations / alternatives of the combinators
-        let (_, complaint) = with_parked_threads(|| {
-            for comb in 0..COMBINATORS.len() {
-                for &input in valid_inputs(comb) {
-                    for &cont in valid_conts(comb) {
-                        for cx in [0u8, 2] {
-                            let k = Case { comb, input, cont, a: 7, b: 11, c: 13, ctx: cx };
-                            ctx.run_one("enumerate-concurrent", &k, check);
-                            n += 1;
+        // continuations / alternatives of the combinators: all in one combinator (nine rounds),
+        // then mixed
+        for kind in (0..9).map(Some).chain([None]) {
+            let (_, complaint) = with_parked_threads(kind, || {
+                for comb in 0..COMBINATORS.len() {
+                    for &input in valid_inputs(comb) {
+                        for &cont in valid_conts(comb) {
+                            for cx in [0u8, 2] {
+                                let k = Case { comb, input, cont, a: 7, b: 11, c: 13, ctx: cx };
+                                ctx.run_one("enumerate-concurrent", &k, check);
+                                n += 1;
+                            }
                         }
                     }
                 }
-            }
-        });
-        if let Some(c) = complaint {
-            let k = Case { comb: 0, input: 0, cont: 1, a: 7, b: 11, c: 13, ctx: 0 };
-            ctx.run_one("enumerate-concurrent", &k, move |_, _| {
-                Err(crate::engine::Failure::new("C15:concurrent:parked-thread", c.clone()))
             });
+            if let Some(c) = complaint {
+                let k = Case { comb: 0, input: 0, cont: 1, a: 7, b: 11, c: 13, ctx: 0 };
+                ctx.run_one("enumerate-concurrent", &k, move |_, _| {
+                    Err(crate::engine::Failure::new("C15:concurrent:parked-thread", c.clone()))
+                });
+            }
         }
         ctx.count("enumerate/combinations", n);
         ctx.exhaustive_part(format!(
